@@ -13,7 +13,7 @@ RULE = ("Greenlets: every chain main <- G0 <- G1 <- G2 (length 1..3) with every 
         "inside the innermost greenlet while all ancestors are suspended in switch() into a descendant; inside each parent after "
         "its child switched back; in main after everything parked; at each ask point every greenlet (main, each Gi, an unstarted "
         "one, a dead one) is extracted: suspended -> exactly the f_back walk from gr_frame; current -> exactly its own portion of "
-        "the running stack (f_back walk from the asker to the greenlet boundary); unstarted/dead -> no frames; running in another "
+        "the running stack (f_back walk from the asker to the greenlet boundary; also when the asker's parent is a greenlet that has finished or was never started, or both nearest ancestors have finished); unstarted/dead -> no frames; running in another "
         "thread (a non-main greenlet there, or that thread's MAIN greenlet while the thread runs in it, asked from this thread's main or a non-main greenlet; that thread's suspended and unstarted greenlets are extracted too) -> an error and no frames. This covers askers {outside, self, child, grandchild, parent}. Greenback: async/sync "
         "alternation depth 0..3 under trio (await_ given coroutines, and given non-coroutine awaitables) with the extraction taken from outside (callback while the task is blocked) and from "
         "inside (innermost sync or async function, also from inside 1-2 plain greenlets started below the task's greenback greenlet): the user functions must appear exactly once each, in call order, and no "
@@ -115,6 +115,53 @@ def run_chain(depths):
     for g in reversed(gs):
         g.switch()
     check_all(universe, "main(outside)", problems, counter, "all-dead")
+    return problems, counter[0]
+
+
+def frameless_parent(arrangement, depth):
+    """The calling greenlet's parent has no frame: it finished before the caller first ran (a spawner), was never
+    started, or both of the caller's nearest ancestors are finished.  Every greenlet of the universe is extracted from
+    inside the caller, `depth` calls deep; the caller's own stack is exactly its own portion of the running stack."""
+    import greenlet
+    problems = []
+    counter = [0]
+    main = greenlet.getcurrent()
+    box = {}
+
+    def descend(d):
+        if d > 1:
+            return descend(d - 1)
+        check_all(universe, "worker(%s)" % arrangement, problems, counter, "frameless-parent")
+        main.switch("parked")
+
+    def worker():
+        descend(depth)
+
+    def spawner():
+        box["w"] = greenlet.greenlet(worker)
+
+    def spawner2():
+        sp = greenlet.greenlet(spawner)
+        box["sp"] = sp
+        sp.switch()
+
+    if arrangement == "dead":
+        sp = greenlet.greenlet(spawner)
+        sp.switch()
+        ancestors = [("spawner", sp, "dead")]
+    elif arrangement == "unstarted":
+        par = greenlet.greenlet(lambda *a: None)
+        box["w"] = greenlet.greenlet(worker, parent=par)
+        ancestors = [("parent", par, "unstarted")]
+    else:
+        sp2 = greenlet.greenlet(spawner2)
+        sp2.switch()
+        ancestors = [("spawner2", sp2, "dead"), ("spawner", box["sp"], "dead")]
+
+    def universe():
+        return [("main", main, "live"), ("worker", box["w"], "live")] + ancestors
+    box["w"].switch()
+    check_all(universe, "main(outside)", problems, counter, "frameless-parent/parked")
     return problems, counter[0]
 
 
@@ -445,6 +492,9 @@ def greenlet_cases(maxd):
         for depths in itertools.product(range(1, maxd + 1), repeat=n):
             yield {"leg": "chain", "depths": list(depths)}
     yield {"leg": "other_thread"}
+    for arrangement in ("dead", "unstarted", "dead-dead"):
+        for depth in (1, 2, 3):
+            yield {"leg": "frameless_parent", "arrangement": arrangement, "depth": depth}
     for asker in ("main", "glet"):
         for nparked in (0, 1, 2):
             for depth in (1, 2):
@@ -467,6 +517,8 @@ def greenback_cases(maxk):
 def do_case(case):
     if case["leg"] == "chain":
         return run_chain(case["depths"])
+    if case["leg"] == "frameless_parent":
+        return frameless_parent(case["arrangement"], case["depth"])
     if case["leg"] == "other_thread":
         return other_thread()
     if case["leg"] == "foreign_running":
